@@ -75,14 +75,14 @@ func (node *tagIncludeNode) Execute(ctx *ExecutionContext, writer TemplateWriter
 			loaded[includedFilename] = tpl
 			includedTpl = tpl
 		}
-		err2 := includedTpl.executeWriterNested(includeCtx, writer, ctx.depth+1, ctx)
+		err2 := includedTpl.executeWriterNested(includeCtx, writer, ctx)
 		if err2 != nil {
 			return node.executionError(ctx, err2)
 		}
 		return nil
 	}
 	// Template is already parsed with static filename
-	err := node.tpl.executeWriterNested(includeCtx, writer, ctx.depth+1, ctx)
+	err := node.tpl.executeWriterNested(includeCtx, writer, ctx)
 	if err != nil {
 		return node.executionError(ctx, err)
 	}
